@@ -44,39 +44,39 @@ CHECKS = {
     technique="exhaustive enumeration per small geometry + " + PBT + "an independent address map (differential oracle)"),
  "C07": dict(category="exploration", design_ref="DESIGN.md section 3, C07",
     text="Up (1:2..1:32) and down (2:1..8:1) converters, all modes, reverse on/off, between a conforming user-side master (ascending/descending/repeated/random addresses inside a wide word, cmd.last, flush at end) and a realistic "
-         "controller-side slave (one-cycle strobes regardless of valid/ready); byte reference memory in user command order, beat counts, final memory, no lost strobe, no invented command.",
+         "controller-side slave (one-cycle strobes regardless of valid/ready); byte reference memory in user command order, beat counts, final memory, no lost strobe, no invented command. In one case in four the memory side is a stream-style port instead (valid/ready queues that accept write data ahead of its command: what the user side of the repository's own converters and CDC port shows, the composition gen.py builds).",
     note=SIMNOTE + " The realistic slave only shows behaviour the real crossbar can show; a master that waits for read data marks that read with cmd.last as documented.",
     technique=PBT + "a byte-accurate reference memory (model-based oracle)"),
  "C08": dict(category="exploration", design_ref="DESIGN.md section 3, C08",
     text="LiteDRAMNativePortCDC under generated clock period pairs (equal, integer ratios, co-prime drifting) and phases, FIFO depths, back-pressure: stream equality of commands, write words and read words across the crossing plus "
-         "the memory oracle. Two genuine defects (read-data FIFO overrun; write data lagging commands with shallow non-default FIFOs) are known findings with event-count signatures.",
+         "the memory oracle. Two genuine defects (read-data FIFO overrun; write data lagging commands with shallow non-default FIFOs) are known findings with event-count signatures. In one case in four the memory side is a stream-style port instead (valid/ready queues that accept write data ahead of its command: what the user side of the repository's own converters and CDC port shows, the composition gen.py builds).",
     note=SIMNOTE + " Migen TimeManager clock semantics; even periods.",
     technique=PBT + "stream equality across the crossing and a reference memory, multi-clock simulation with generated clock pairs"),
  "C10": dict(category="exploration", design_ref="DESIGN.md section 3, C10",
     text="LiteDRAMWishbone2Native for bus:port ratios 1/8..8 and base addresses and LiteDRAMNative2Wishbone (word/byte addressing): classic cycles, incrementing bursts, any sel, back-to-back, aborts at generated cycles; "
-         "one acknowledge per non-aborted access, none outside a cycle, byte reference memory with allowed sets (bytes selected by an aborted write are undefined, everything else untouched), no hang after aborts, final memory.",
+         "one acknowledge per non-aborted access, none outside a cycle, byte reference memory with allowed sets (bytes selected by an aborted write are undefined, everything else untouched), no hang after aborts, final memory. In one case in four the memory side is a stream-style port instead (valid/ready queues that accept write data ahead of its command: what the user side of the repository's own converters and CDC port shows, the composition gen.py builds). (equal bus and port widths only, see DESIGN 8.2); the reverse bridge is driven over the whole native address range with bases up to 0x80000000.",
     note=SIMNOTE + " At a write strobe that finds no valid data the stub applies the data/enable wires like the real crossbar does.",
     technique=PBT + "a byte-accurate reference memory with per-byte allowed sets (model-based oracle)"),
  "C09": dict(category="exploration", design_ref="DESIGN.md section 3, C09 and 8",
     text="LiteDRAMAXI2Native (132 devices: data width, buffer depths 1-16, base addresses, id widths, with/without read-modify-write) between a conforming AXI4 master with independent stall schedules on all five channels "
          "(FIXED/INCR/WRAP, W leading or lagging AW, partial strobes, reads concurrent with writes) and the realistic native slave: one B per burst with the right ID and never before the data reached the memory, R beat counts/IDs/LAST, "
-         "per-byte allowed sets for concurrent reads, final memory, RMW writes always full-enable, no lost strobe, no hang.",
+         "per-byte allowed sets for concurrent reads, final memory, RMW writes always full-enable, no lost strobe, no hang. In one case in four the memory side is a stream-style port instead (valid/ready queues that accept write data ahead of its command: what the user side of the repository's own converters and CDC port shows, the composition gen.py builds).",
     note=SIMNOTE + " Full-width transfer size only (the only size the bridge documents); AXI valid/payload stability is generated, not assumed of the bridge.",
     technique=PBT + "AXI protocol rules and a byte-accurate reference memory with allowed sets (model-based oracle)"),
  "C11": dict(category="exploration", design_ref="DESIGN.md section 3, C11 and 8",
     text="LiteDRAMAvalonMM2Native for 13 avalon:port width pairs (1/8..4, incl. the up- and down-converting builds), max_burst_length 2-64, base addresses, burst increments, between a conforming Avalon-MM master "
          "(single and burst accesses, any byte enables, write deasserted between beats, waitrequest honoured, address/burstcount don't-care after the first beat) and the realistic native slave: byte reference memory in command order, "
-         "n readdatavalid beats per read burst in order, every accepted beat performed exactly once, final memory, no lost strobe, no hang.",
+         "n readdatavalid beats per read burst in order, every accepted beat performed exactly once, final memory, no lost strobe, no hang. In one case in four the memory side is a stream-style port instead (valid/ready queues that accept write data ahead of its command: what the user side of the repository's own converters and CDC port shows, the composition gen.py builds). (equal widths only); accesses cover the bottom, middle and very top of the memory the native port declares, native address widths 9-30.",
     note=SIMNOTE + " What an Avalon master must hold during later beats of a burst is stated in the module's ASSUMPTIONS.",
     technique=PBT + "a byte-accurate reference memory (model-based oracle)"),
  "C12": dict(category="exploration", design_ref="DESIGN.md section 3, C12",
     text="LiteDRAMDMAReader / LiteDRAMDMAWriter on native ports (realistic slave with unconditional read strobes) and AXI ports (own AXI memory slave), FIFO depths 1-32, buffered or not, consumer stalled for hundreds of cycles with "
-         "reads in flight: output stream = memory at the addresses in order with last marks, reads issued minus words delivered never exceeds the FIFO depth, no strobe ever lost, writer log = input pairs exactly once in order; plus writer->reader round trips on the whole core.",
+         "reads in flight: output stream = memory at the addresses in order with last marks, reads issued minus words delivered never exceeds the FIFO depth, no strobe ever lost, writer log = input pairs exactly once in order; plus writer->reader round trips on the whole core. In one case in four the memory side is a stream-style port instead (valid/ready queues that accept write data ahead of its command: what the user side of the repository's own converters and CDC port shows, the composition gen.py builds).",
     note=SIMNOTE + " CSR mode of the DMAs is out of scope.",
     technique=PBT + "stream equality with a reference memory and an outstanding-reads invariant"),
  "C13": dict(category="exploration", design_ref="DESIGN.md section 3, C13 and 8",
     text="LiteDRAMFIFO (bypass on: ratios 1-8; bypass off) and _LiteDRAMFIFO, depths 2-64 words, both ports on one acceptance-ordered realistic slave; streams 3-20x the depth with schedules that fill, drain and hover at the bypass threshold: "
-         "output stream = input stream word by word, level <= depth, no write to an address holding an unread word, addresses inside the region, no lost strobe, no hang. Two genuine defects of the bypass FSM (ratio > 1) are known findings.",
+         "output stream = input stream word by word, level <= depth, no write to an address holding an unread word, addresses inside the region, no lost strobe, no hang. Two genuine defects of the bypass FSM (ratio > 1) are known findings; a DRAM-mode exit with words still stored (own handshake count) is told apart from them. In one case in four the memory side is a stream-style port instead (valid/ready queues that accept write data ahead of its command: what the user side of the repository's own converters and CDC port shows, the composition gen.py builds).",
     note=SIMNOTE + " Known-finding signatures (FSM state at the first deviation) only qualify the key, never the verdict.",
     technique=PBT + "stream equality and occupancy tracking from port traffic (model-based oracle)"),
  "C17": dict(category="exploration", design_ref="DESIGN.md section 3, C17 and 8",
@@ -97,13 +97,13 @@ CHECKS = {
  "C14": dict(category="exploration", design_ref="DESIGN.md section 3, C14 and 8",
     text="_LiteDRAMBISTGenerator/_LiteDRAMBISTChecker and the pattern variants on native ports (width 8-256, realistic two-port slave) and AXI ports (own AXI memory slave), driven exactly like the upstream driver: base, power-of-two range, length, "
          "random data/address flags, memory pre-loaded by a generator run or by the model, 0-4 corrupted words: write log = own PRBS31/counter model's (address, data) sequence inside [base, end), checker terminates with errors = number of differing sequence positions, "
-         "zero over a faithful memory without address repeats, k corruptions -> exactly k. The range defect (byte mask on the word counter), pinned by an upstream test, is a known finding; error counts stay checked in affected cases against the byte-masked addresses.",
+         "zero over a faithful memory without address repeats, k corruptions -> exactly k; in a third of the cases the same instances have already done an earlier run with other settings (the cores are reset before every run, so it must not matter). The range defect (byte mask on the word counter), pinned by an upstream test, is a known finding; error counts stay checked in affected cases against the byte-masked addresses. In one case in four the memory side is a stream-style port instead (valid/ready queues that accept write data ahead of its command: what the user side of the repository's own converters and CDC port shows, the composition gen.py builds).",
     note=SIMNOTE + " lib/lfsr.py is cross-checked against a bit-serial PRBS31 recurrence and the pinned memory images of test_bist.py. CSR/CDC wrappers are not covered.",
     technique=PBT + "an independent LFSR/counter model of the sequence and an error-count oracle over generated corruption sets"),
  "C15": dict(category="fault_enumeration", design_ref="DESIGN.md section 3, C15 and 8",
     text="LiteDRAMNativePortECC (lane data widths 8/16/32/64, burst_cycles 1-8) between a conforming master and a memory stub whose stored words are XOR-ed with a flip mask: EVERY lane x EVERY stored bit position as a single flip "
          "(original data returned, never uncorrectable, counted as corrected exactly once unless it is the overall parity bit) and position PAIRS (quick: all singles + a seeded ~10% sample of pairs; thorough: all pairs, 8 data words each: 1.85 M double flips) "
-         "-> uncorrectable counted, never clean or corrected; sticky flags, clear; full writes raise no granularity error, partial-lane writes do; stored code words have distance >= 4.",
+         "-> uncorrectable counted, never clean or corrected; sticky flags, clear; full writes raise no granularity error, every other enable pattern (lanes enabled partially or not at all) does; stored code words have distance >= 4.",
     note=SIMNOTE + " lib/secded.py (textbook extended Hamming) is used for the distance cross-check only. For lanes whose stored width is not a whole number of bytes, memory-side enables/read-back after PARTIAL writes are not judged (lanes share bytes; the property only asks that such writes are reported).",
     technique="fault enumeration (every single flip, pairs enumerated or sampled by Hypothesis) + property-based byte-enable patterns against the SECDED contract"),
  "C16": dict(
